@@ -106,6 +106,10 @@ func same(a, b *ty) bool {
 // what the translator knows about the package: how the ambiguous Go types of each function are read,
 // the package-level names, and the callees outside the translated set
 
+// functions emitted in continuation style: one Lean function per top-level statement, each taking the variables in scope and
+// ending in a call of the next (an early `return` in a statement is then simply that function's result)
+var cpsFuncs = map[string]bool{"RedactMongoLog": true}
+
 type sig struct {
 	params  map[string]string // parameter POSITION ("0", "1", …) -> reading of an interface{} / *OrderedMap parameter
 	results []string          // reading of each result
@@ -253,6 +257,9 @@ func (x *tr) declare(n string, t *ty) string {
 		ln = fmt.Sprintf("%s_%d", base, x.used[base])
 	}
 	x.scopes[len(x.scopes)-1][n] = gname{ln, t}
+	declCounter++
+	declOrder[ln] = declCounter
+	cpsMemo[x.cur+"/"+n] = gname{ln, t}
 	return ln
 }
 
@@ -1697,6 +1704,27 @@ func (x *tr) stmt(ind int, st ast.Stmt) {
 	}
 }
 
+var declOrder = map[string]int{}
+var declCounter = 0
+
+// leanOf2: the Lean name / type of a Go variable as recorded when the piece was created (scopes may have been popped since)
+var cpsMemo = map[string]gname{}
+
+func leanOf2(x *tr, n string, _ []string) gname {
+	if g, ok := x.lookup(n); ok {
+		cpsMemo[x.cur+"/"+n] = g
+		return g
+	}
+	return cpsMemo[x.cur+"/"+n]
+}
+
+func nextCallOr(s string) string {
+	if s == "" {
+		return "none"
+	}
+	return s
+}
+
 // outlineOK: every top-level statement of the procedure is an `if` (with or without init) or a `for`, so that no local variable
 // is shared between statements and an early `return` can only be the nil guard on the map itself
 func outlineOK(fi *fnInfo) bool {
@@ -1856,6 +1884,135 @@ func (x *tr) function(name string) (text string, err string) {
 			g, _ := x.lookup(p)
 			x.emit(ind, "let mut "+g.lean+" := "+g.lean)
 		}
+	}
+	if cpsFuncs[name] && !fi.rec {
+		f := ""
+		fa := ""
+		if fi.fuel {
+			f = " (fuel : Nat)"
+			fa = " fuel"
+		}
+		defs := []string{}
+		x.out = nil
+		// scopeVars: the Go variables in scope, in declaration order (parameters first)
+		scopeVars := func() []string {
+			seen := map[string]bool{}
+			r := []string{}
+			for _, p := range fi.pnames {
+				if !seen[p] {
+					seen[p] = true
+					r = append(r, p)
+				}
+			}
+			type nv struct {
+				n string
+				o int
+			}
+			for _, sc := range x.scopes {
+				names := []nv{}
+				for n, g := range sc {
+					if !seen[n] && g.lean != "_" {
+						names = append(names, nv{n, declOrder[g.lean]})
+					}
+				}
+				sort.Slice(names, func(i, j int) bool { return names[i].o < names[j].o })
+				for _, e := range names {
+					seen[e.n] = true
+					r = append(r, e.n)
+				}
+			}
+			return r
+		}
+		leanOf := func(n string) gname { g, _ := x.lookup(n); return g }
+		callOf := func(fn string, vars []string) string {
+			args := []string{}
+			for _, gn := range vars {
+				args = append(args, leanOf(gn).lean)
+			}
+			return fmt.Sprintf("%s g T%s %s", fn, fa, strings.Join(args, " "))
+		}
+		// cpsBlock: one definition per statement of `stmts` (named prefix_k<i>), the last one ending in `next` ("" = nothing follows);
+		// returns the call that enters the block
+		var cpsBlock func(stmts []ast.Stmt, prefix string, next string) (string, []string)
+		cpsBlock = func(stmts []ast.Stmt, prefix string, next string) (string, []string) {
+			nestedDefs := make([][]string, len(stmts))
+			type piece struct {
+				params []string
+				text   string
+			}
+			pieces := make([]piece, len(stmts))
+			calls := make([]string, len(stmts)+1)
+			// parameters of each piece = scope before the statement; the scope grows as the statements are translated in order,
+			// so the texts are produced in order but each refers to the NEXT one by name only
+			for i, st := range stmts {
+				vars := scopeVars()
+				pieces[i].params = vars
+				calls[i] = callOf(fmt.Sprintf("%s_k%d", prefix, i+1), vars)
+				_ = st
+				// translate
+				x.out = nil
+				nested := ""
+				if is, ok := st.(*ast.IfStmt); ok && is.Init == nil && is.Else == nil && len(is.Body.List) > 2 {
+					// a long `if` without else: its body in continuation style too, falling through to what follows the `if`
+					after := "__AFTER__"
+					c := x.expr(is.Cond)
+					x.push()
+					enter, nd := cpsBlock(is.Body.List, fmt.Sprintf("%s_k%d", prefix, i+1), after)
+					nestedDefs[i] = nd
+					x.pop()
+					nested = "  if " + c.s + " then\n    " + enter + "\n  else\n    " + after
+				} else {
+					x.stmt(1, st)
+					nested = strings.Join(x.out, "\n")
+				}
+				pieces[i].text = nested
+			}
+			calls[len(stmts)] = next
+			own := make([]string, len(stmts))
+			for i := range stmts {
+				ph := []string{}
+				var b strings.Builder
+				for _, gn := range pieces[i].params {
+					g := leanOf2(x, gn, pieces[i].params)
+					ph = append(ph, "("+g.lean+" : "+g.t.lean()+")")
+				}
+				fmt.Fprintf(&b, "/-- `%s`, continuation %s_k%d -/\ndef %s_k%d (g : Globals) (T : Tables)%s %s : Option %s := do\n", name, prefix, i+1, prefix, i+1, f, strings.Join(ph, " "), rt)
+				for _, gn := range pieces[i].params {
+					g := leanOf2(x, gn, pieces[i].params)
+					fmt.Fprintf(&b, "  let mut %s := %s\n", g.lean, g.lean)
+				}
+				nextCall := calls[i+1]
+				if i+1 < len(stmts) {
+					nextCall = calls[i+1]
+				}
+				body := strings.ReplaceAll(pieces[i].text, "__AFTER__", nextCallOr(nextCall))
+				b.WriteString(body + "\n")
+				if !strings.Contains(pieces[i].text, "__AFTER__") && nextCall != "" {
+					b.WriteString("  " + nextCall + "\n")
+				}
+				own[i] = b.String()
+			}
+			// callee first: the last statement, then the one before it (its nested block first), …
+			ordered := []string{}
+			for i := len(stmts) - 1; i >= 0; i-- {
+				for _, d := range nestedDefs[i] {
+					ordered = append(ordered, strings.ReplaceAll(d, "__AFTER__", nextCallOr(calls[i+1])))
+				}
+				ordered = append(ordered, own[i])
+			}
+			return calls[0], ordered
+		}
+		x.push()
+		// the definitions must appear callee-first: collect, then emit in reverse order of creation
+		enter, ordered := cpsBlock(fi.decl.Body.List, name, "")
+		defs = ordered
+		x.pop()
+		Lm := append([]string{}, L...)
+		Lm[len(Lm)-1] = strings.TrimSuffix(Lm[len(Lm)-1], " do")
+		// order: a definition refers only to definitions with a larger statement index or to nested ones created before it is
+		// closed; emitting in reverse creation order puts every callee first
+		rev := defs
+		return strings.Join(rev, "\n") + "\n" + strings.Join(append(Lm, "  "+enter), "\n") + "\n", ""
 	}
 	if fi.proc && !fi.rec && outlineOK(fi) {
 		// a procedure whose top-level statements each only update the map: one Lean function per statement (`f_s<i>`), chained by
